@@ -15,6 +15,7 @@ import Fir.Proofs.ImageLemmas
 import Fir.Proofs.TwoPassLemmas
 import Fir.Proofs.IdealFilterLemmas
 import Fir.Proofs.FloatLemmas
+import Fir.Proofs.IeeeLemmas
 
 namespace Fir.C10
 open Fir
@@ -252,5 +253,15 @@ theorem uniform_i32 (v r : ℤ) (s : ℚ) (hs : |s - v| < 1 / 2) (hr : |(r : ℚ
 example : QuantOK [4096, 8192, 4096] 14 255 := by decide
 example : passInt .u8 [4096, 8192, 4096] (List.replicate 3 200) 14 = 200 := by decide
 example : QuantOK [5461, 5462, 5461] 14 255 := by decide
+
+/-! ### the premises about rounding discharged for IEEE-754 round-to-nearest-even (`Fir.Ieee.flP`) -/
+
+section IeeeInstances
+open Fir.Ieee Fir.Flt
+/-- `uniform_float` for IEEE binary64 -/
+theorem uniform_float_ieee (v : ℚ) (k : ℕ → ℚ) (t : Shape) :
+    |t.eval (flP 53) (fun _ => v) k - v| ≤ gam (1 / 2 ^ 53) t.depth * (|v| * t.kAbs k) + |v| * |t.kSum k - 1| :=
+  uniform_float (flP 53) (1 / 2 ^ 53) (by positivity) (flP_relErr 53 (by norm_num)) v k t
+end IeeeInstances
 
 end Fir.C10
